@@ -19,6 +19,7 @@ import (
 	"sort"
 	"strings"
 	"sync"
+	"sync/atomic"
 	"time"
 
 	"github.com/blevesearch/bleve/v2/numeric"
@@ -124,11 +125,6 @@ func prefixRecord(v int64, shift uint) record {
 
 // ---- judging
 
-type verdicts struct {
-	mu      sync.Mutex
-	drifted map[string]int
-}
-
 var propertyLevel = map[string]bool{
 	"SplitWellFormed": true, "SplitCover": true, "FloatInverse": true, "FloatMonotone": true,
 	"PrefixDecode": true, "QueryExact": true, "SortComplete": true, "SortOrdered": true,
@@ -158,6 +154,12 @@ func abbreviate(s string, n int) string {
 // judgeAll splits recs into chunks judged by parallel TLC runs; header records
 // (the corpora) are prepended to every chunk.
 func judgeAll(c *core.Ctx, cfg string, header []record, recs []record, chunk, par int) error {
+	return judgeAllN(c, cfg, header, recs, chunk, par, 12)
+}
+
+var dumpSeq int32
+
+func judgeAllN(c *core.Ctx, cfg string, header []record, recs []record, chunk, par, maxFail int) error {
 	if len(recs) == 0 {
 		return nil
 	}
@@ -187,7 +189,10 @@ func judgeAll(c *core.Ctx, cfg string, header []record, recs []record, chunk, pa
 			for _, r := range recs[j.lo:j.hi] {
 				list = append(list, r.m)
 			}
-			bad, err := c.JudgeRecords("JudgeNumeric", cfg, list, 12, core.Timeout(25*time.Minute), core.Heap(3000))
+			if d := os.Getenv("VERIF_C07_DUMP"); d != "" { // development aid
+				_ = core.WriteNDJSON(fmt.Sprintf("%s/%s-%d.ndjson", d, cfg, atomic.AddInt32(&dumpSeq, 1)), list)
+			}
+			bad, err := c.JudgeRecords("JudgeNumeric", cfg, list, maxFail, core.Timeout(25*time.Minute), core.Heap(3000))
 			mu.Lock()
 			defer mu.Unlock()
 			if err != nil && firstErr == nil {
@@ -337,7 +342,17 @@ func run(c *core.Ctx) error {
 	judge("JudgeNumeric.cfg", nil, append(append([]record{}, fl...), pf...), c.Pick(800, 4000), 2)
 	judge("JudgeNumeric.cfg", e2e.header, append(append([]record{}, e2e.queries...), e2e.sorts...), c.Pick(400, 1500), 3)
 	// an invariant with an open known finding is judged in a run of its own (DESIGN 3.4)
-	judge("JudgeNumeric_query.cfg", e2e.header, e2e.openEnd, 1000, 1)
+	jwg.Add(1)
+	go func() {
+		defer jwg.Done()
+		if err := judgeAllN(c, "JudgeNumeric_query.cfg", e2e.header, e2e.openEnd, 1000, 1, 1); err != nil {
+			jmu.Lock()
+			if jerr == nil {
+				jerr = err
+			}
+			jmu.Unlock()
+		}
+	}()
 	jwg.Wait()
 	if jerr != nil {
 		return jerr
@@ -362,7 +377,8 @@ func checkBlowups(c *core.Ctx, e2e *e2eRecords) error {
 		if err != nil {
 			return err
 		}
-		bad, err := c.JudgeRecords("JudgeNumeric", "JudgeNumeric_enum.cfg", []any{rec.m}, 2)
+		// (a leading corpus record keeps the judged record off the initial state)
+		bad, err := c.JudgeRecords("JudgeNumeric", "JudgeNumeric_enum.cfg", []any{bc.cs.Corpus.record().m, rec.m}, 2)
 		c.Traces(1)
 		if err != nil {
 			return err
@@ -386,7 +402,7 @@ func checkBlowups(c *core.Ctx, e2e *e2eRecords) error {
 			q := bc.cs.Query
 			c.Violation("c07/range-enumeration-blowup",
 				fmt.Sprintf("%s range query on %s (min bits %#x, max bits %#x, flags %d/%d; integer bounds [%d,%d]) gives no answer within 12s: termRange.Enumerate has to walk %s byte strings (judge: %v)",
-					bc.cs.Corpus.Typ, q.Eng, q.Min, q.Max, q.IncMin, q.IncMax, bc.mn, bc.mx, bc.walk, bad[0]),
+					bc.cs.Corpus.Typ, q.Eng, q.Min, q.Max, q.IncMin, q.IncMax, bc.mn, bc.mx, bc.walk, bad[1]),
 				map[string]any{"case": bc.cs, "split_record": rec.m})
 		default:
 			c.Inconclusive(fmt.Sprintf("query %v did not answer although the judge finds its term walk bounded", core.Canon(bc.cs.Query)))
